@@ -24,6 +24,7 @@ RULES = [
     Rule('C11.R2', 'a zero channel volume, expression or master volume yields model output 0 (carriers silenced) in every model', 3),
     Rule('C11.R3', 'model output is non-decreasing in each loudness input, level non-increasing in it; brightness mapping monotone', 20),
     Rule('C11.R4', 'carrier mask per algorithm equals the YM2612 output operators; modulators untouched unless scaling/brightness applies', 3),
+    Rule('C11.R6', 'a note that takes over a time-shared chip channel writes its own levels (the arpeggio refresh includes the volume update)', 1),
     Rule('C11.R5', 'the timbre that touchNote scales is the one setPatch uploaded last', 1),
 ]
 EXPLANATION = ('Interval abstract interpretation (E2) of OPN2::touchNote and of the Upd_Volume branch of noteUpdate with the parameter ranges obtained from the '
@@ -287,6 +288,7 @@ def analyse(facts, tier):
     obls.append(Obl('C11.R4', tn.name, 'brightness only dims unscaled operators when reduced', tn.loc, 'discharged' if okb else 'finding',
                     why='guarded by brightness != 127 and !do_op' if okb else 'brightness scaling is not restricted to reduced brightness on unscaled operators'))
     obls += r5_cache(facts)
+    obls += r6_arpeggio_levels(facts)
     return obls
 
 
@@ -313,4 +315,31 @@ def r5_cache(facts):
     out.append(Obl('C11.R5', sp.name, 'm_insCache[c] = instrument on every path', loc, 'discharged' if ok else 'finding',
                    why='whole-entry store post-dominates the entry' if ok else
                    'the cached timbre is refreshed only on some paths / in part: touchNote then scales the operators with the algorithm of a previous instrument (modulators get volume-scaled, carriers stay at bank level)'))
+    return out
+
+
+def r6_arpeggio_levels(facts):
+    """several notes of one timbre share a chip channel under automatic arpeggio; on every switch updateArpeggio re-programs the
+    channel for the note whose turn it is.  The total levels on the chip are those of that note only if the refresh includes
+    Upd_Volume (velocity and the channel volumes differ between the notes, which may even sit on different MIDI channels)."""
+    out = []
+    fn = facts.fn('OPNMIDIplay::updateArpeggio')
+    E = facts.enums
+    vol, off = E.get('Upd_Volume'), E.get('Upd_Off')
+    if vol is None or off is None:
+        raise build.AnalysisBroken('C11.R6: Upd_* enumerators not found')
+    n = 0
+    for b, j, st in fn.cfg.stmts():
+        for x in calls_in(st['s']):
+            if short(callee_name(x)) == 'noteUpdate' and len(x.get('a', [])) >= 4:
+                m = const_of(x['a'][2])
+                if m is None or m & off:
+                    continue
+                n += 1
+                ok = bool(m & vol)
+                out.append(Obl('C11.R6', fn.name, 'arpeggio refresh mask %s' % show(x['a'][2])[:40], st['loc'], 'discharged' if ok else 'finding',
+                               why='includes Upd_Volume: touchNote runs with the levels of the note taking the channel' if ok else
+                               'the refresh does not include Upd_Volume: the chip keeps the total levels of the previous note of the share (a note on a muted channel sounds with the loudness of its neighbour)'))
+    if n < 1:
+        raise build.AnalysisBroken('C11.R6: arpeggio refresh call not found in updateArpeggio')
     return out
